@@ -1377,13 +1377,13 @@ fn main() {
     }
 
     // ---- random histories
-    let n = check.pick(60_000, 2_000_000);
+    let n = check.pick(150_000, 2_000_000);
     {
         let known = known.clone();
         check.stage("random-histories", n, 16, || case_strategy(70), move |c: &Case, ctx: &mut CaseCtx| run_case(c, ctx, known.clone()));
     }
     // ---- long histories (many recovery rounds, cwnd floor)
-    let n = check.pick(6_000, 150_000);
+    let n = check.pick(12_000, 150_000);
     {
         let known = known.clone();
         check.stage("random-long", n, 16, || case_strategy(300), move |c: &Case, ctx: &mut CaseCtx| run_case(c, ctx, known.clone()));
